@@ -11,6 +11,14 @@ ProgF2 == << <<{"enter"}, {"leave"}>>,
              <<{"enter"}, {"notify"}, {"leave"}, {"wait"}>>,
              <<{"notify"}, {"enter"}, {"leave"}, {"waitT"}>> >>
 
+\* liveness runs (TLC's liveness checking is far more expensive than safety)
+ProgLive1 == << <<{"enter"}, {"leave"}, {"enter"}, {"leave"}>>,
+                <<{"wait", "waitT"}, {"notify"}>>,
+                <<{"notify"}, {"waitT", "waitN"}>> >>
+ProgLive2 == << <<{"enter"}, {"notify"}, {"leave"}>>,
+                <<{"enter"}, {"wait", "waitT"}, {"leave"}>>,
+                <<{"wait"}, {"notify"}>> >>
+
 \* two generations, a notifier per generation, untimed + timed + polling waiters
 ProgGen == << <<{"enter"}, {"leave"}, {"enter"}, {"notify", "skip"}, {"leave"}>>,
               <<{"wait", "waitT", "waitN"}, {"notify", "enter"}, {"leave", "wait"}>>,
